@@ -130,6 +130,9 @@ def build(IO, vals, T=2, L=2, R=2, C=2, tkey='1h', symbolic=True,
         # listed in VAR-LIST)
         z = f.createVariable('ZH', 'f', ('TSTEP', 'LAY'), units='m')
         z[:] = 1.
+        # ... and one that shares only the leading dimensions
+        zr = f.createVariable('ZR', 'f', ('TSTEP', 'LAY', 'ROW'), units='m')
+        zr[:] = 2.
     if update:
         f.updatemeta()
     return f
